@@ -66,9 +66,16 @@ Rule(e, pre, post) ==
             /\ SameContent(post, Role("o"), pre, Role("f"))
             /\ post[Role("o")].kind = pre[Role("src")].kind          \* same class as the object that was saved
             /\ e.procSame                                             \* processing with the reloaded settings is identical
-      [] e.op = "Process" ->      \* processing may store the FFT length in the settings it was given (named deviation
-                                  \* FftLengthRatchet, slots listed by the harness), nothing else, nobody else
+      [] e.op = "LoadOnto" ->     \* existing.load(file): the object's former content is REPLACED by the file's (nothing of its
+                                  \* own history survives), nobody else changes, its class stays
             /\ FrameExcept(pre, post, {Role("o")}) /\ OnlyNew(pre, post, {})
+            /\ SameContent(post, Role("o"), pre, Role("f"))
+            /\ post[Role("o")].kind = pre[Role("o")].kind
+            /\ e.procSame
+      [] e.op = "Process" ->      \* processing may store the FFT length in the settings it was given (named deviation
+                                  \* FftLengthRatchet, slots listed by the harness), nothing else, nobody else - except
+                                  \* the caller's own dictionary if the caller assigned it (o.fft_settings = d shares d)
+            /\ FrameExcept(pre, post, {Role("o")} \cup Sharers(pre, Role("o"))) /\ OnlyNew(pre, post, {})
             /\ \A i \in 1..NSlots(pre, Role("o")) : (i \notin ToSet(e.slots)) => post[Role("o")].slots[i] = pre[Role("o")].slots[i]
       [] OTHER -> FALSE
 
